@@ -13,8 +13,8 @@ def rule : Rule :=
     stopReject := [1, 2],
     initLast := 4,
     sceneReject := [1],
-    dynMonitored := false,
-    impliesEval := false }
+    dynReject := some [1],
+    impliesEval := true }
 
 /-- propositions.py: Scenic proposition class -> (rv_ltl constructor, positions of the operands passed) -/
 def ctorMap : List (String × String × List Nat) :=
@@ -29,6 +29,13 @@ def ctorMap : List (String × String × List Nat) :=
 
 /-- propositions.py: classes that set `is_temporal` -/
 def temporalClasses : List String := ["Always", "Eventually", "Next", "Until"]
+
+/-- propositions.py `PropositionMonitor.update`: the value of an atom is coerced with `bool()` before it is handed to rv_ltl -/
+def atomCoerce : Bool := true
+
+/-- propositions.py: the normalised body of `evaluate()` of each non-temporal class -/
+def evalForms : List (String × String) :=
+  [("Atomic", "closure()"), ("Not", "not x"), ("And", "all"), ("Or", "any"), ("Implies", "(not x) or y")]
 
 /-- rv_ltl/monitor.py: sugar monitors as (class, expansion) -/
 def sugar : List (String × String) :=
